@@ -1492,3 +1492,221 @@ fn main() {}
 
 
 CERTS["uri_path_algebra"] = lambda: path_algebra_cert(dfa.reference("rfc3986.abnf", "path"), dfa.reference("rfc3986.abnf", "segment"))
+
+
+AT, LB, RB = 64, 91, 93
+
+
+def authority_cert(A, UI, HO, PO, a_name="Authority"):
+    """G3a: user info, host and port of a valid authority (RFC 3986 3.2 decomposition) are valid values of their types"""
+    pts = sorted(set(_points(A, [COLON, AT, LB, RB]) + _points(UI) + _points(HO) + _points(PO)))
+    s_ui, i_ui, _, _ = gen_component("ui", A, UI, a_name, "UserInfo", {0}, [], {AT}, False, {AT})
+    # states where the host starts: after the '@' that ends a user info, or the initial state
+    pre = closure(A, {0}, {AT}, pts)
+    hs1 = set(A.step(q, AT) for q in pre) - {-1}
+    hs = hs1 | {0}
+    s_hn, i_hn, _, _ = gen_component("hn", A, HO, a_name, "Host", hs, [], {COLON, AT, LB}, True, {COLON}, emit_a=False, prelude=False)
+    hbp = set()
+    for q in hs:
+        a1 = A.step(q, LB)
+        if a1 >= 0:
+            hbp.add((a1, HO.step(0, LB)))
+    s_hb, i_hb, _, _ = gen_component("hb", A, HO, a_name, "Host", hs, [], {RB}, False, set(), emit_a=False, emit_b=False, prelude=False, start_pairs=hbp)
+    hn_end = set(i_hn["end_states"]); hb_end = set(i_hb["end_states"])
+    ps = set(A.step(a, COLON) for a in hn_end) | set(A.step(A.step(a, RB), COLON) if A.step(a, RB) >= 0 else -1 for a in hb_end)
+    ps.discard(-1)
+    s_po, i_po, _, _ = gen_component("po", A, PO, a_name, "Port", ps, [], {AT}, True, set(), emit_a=False, prelude=False)
+    src = "\n".join([s_ui, ok_run_lemma("ui", "UserInfo", {AT}, False, {AT}), s_hn, ok_run_lemma("hn", "Host", {COLON, AT, LB}, True, {COLON}), s_hb, s_po, ok_run_lemma("po", "Port", {AT}, True, set()),
+                     _set_spec("pre_at", pre), _set_spec("hs", hs)])
+    pre_closure = "\n".join("proof fn pre_c%d(q: int, c: int)\n    requires q == %d, c != 64, %s_step(q, c) >= 0,\n    ensures pre_at(%s_step(q, c)),\n{ }" % (q, q, a_name, a_name) for q in sorted(pre))
+    pre_disp = "\n".join("            %s q == %d { pre_c%d(q, s[0]); }" % ("if" if j == 0 else "else if", q, q) for j, q in enumerate(sorted(pre)))
+    src += "\n" + pre_closure + """
+proof fn pre_scan(q: int, s: Seq<int>, n: int)
+    requires pre_at(q), 0 <= n <= s.len(), forall|i: int| 0 <= i < n ==> #[trigger] s[i] != 64,
+    ensures %(A)s_at(q, s, n) < 0 || pre_at(%(A)s_at(q, s, n)),
+    decreases n
+{
+    if n > 0 {
+        let c = s[0];
+        if %(A)s_step(q, c) >= 0 {
+%(pre_disp)s
+            assert forall|i: int| 0 <= i < n - 1 implies #[trigger] s.drop_first()[i] != 64 by { assert(s.drop_first()[i] == s[i + 1]); }
+            pre_scan(%(A)s_step(q, c), s.drop_first(), n - 1);
+            assert(%(A)s_at(q, s, n) == %(A)s_at(%(A)s_step(q, c), s.drop_first(), n - 1));
+        } else {
+            assert(%(A)s_at(q, s, n) == %(A)s_at(%(A)s_step(q, c), s.drop_first(), n - 1));
+            %(A)s_at_neg(s.drop_first(), n - 1);
+        }
+    }
+}
+proof fn hs_enter(q: int)
+    requires pre_at(q), %(A)s_step(q, 64) >= 0,
+    ensures hs(%(A)s_step(q, 64)),
+{ }
+proof fn hs_zero()
+    ensures hs(0), pre_at(0), ui_rel(0, 0),
+{ }
+proof fn hn_start(q: int)
+    requires hs(q),
+    ensures hn_rel(q, 0),
+{ }
+proof fn hb_start(q: int)
+    requires hs(q), %(A)s_step(q, 91) >= 0,
+    ensures hb_rel(%(A)s_step(q, 91), Host_step(0, 91)),
+{ }
+proof fn hb_close(a: int, b: int)
+    requires hb_rel(a, b), %(A)s_step(a, 93) >= 0,
+    ensures b >= 0, Host_step(b, 93) >= 0, Host_final(Host_step(b, 93)),
+{ }
+proof fn po_from_hn(a: int)
+    requires hn_endst(a), %(A)s_step(a, 58) >= 0,
+    ensures po_rel(%(A)s_step(a, 58), 0),
+{ }
+proof fn po_from_hb(a: int)
+    requires hb_endst(a), %(A)s_step(a, 93) >= 0, %(A)s_step(%(A)s_step(a, 93), 58) >= 0,
+    ensures po_rel(%(A)s_step(%(A)s_step(a, 93), 58), 0),
+{ }
+/// the host starts at hs: at 0 when the text has no '@', else right after the first '@'
+pub open spec fn host_start(s: Seq<int>, hs_: int) -> bool {
+    (hs_ == 0 && forall|i: int| 0 <= i < s.len() ==> #[trigger] s[i] != 64)
+    || (0 < hs_ <= s.len() && s[hs_ - 1] == 64 && forall|i: int| 0 <= i < hs_ - 1 ==> #[trigger] s[i] != 64)
+}
+proof fn host_start_state(s: Seq<int>, hs_: int)
+    requires host_start(s, hs_), 0 <= hs_ <= s.len(),
+    ensures %(A)s_at(0, s, hs_) < 0 || hs(%(A)s_at(0, s, hs_)),
+{
+    hs_zero();
+    if hs_ > 0 {
+        pre_scan(0, s, hs_ - 1);
+        let q = %(A)s_at(0, s, hs_ - 1);
+        if q >= 0 { %(A)s_at_next(0, s, hs_ - 1); if %(A)s_step(q, 64) >= 0 { hs_enter(q); } }
+        else { %(A)s_at_add(0, s, hs_ - 1, 1); %(A)s_at_neg(s.skip(hs_ - 1), 1); }
+    }
+}
+/// FACT: the text before the first '@' of a valid authority is a valid user info
+pub proof fn comp_userinfo(s: Seq<int>, k: int)
+    requires %(A)s_run(0, s), 0 <= k < s.len(), s[k] == 64, forall|i: int| 0 <= i < k ==> #[trigger] s[i] != 64,
+    ensures UserInfo_run(0, s.subrange(0, k)),
+{
+    hs_zero();
+    ui_mid(0, 0, s);
+    assert forall|i: int| 0 <= i < k implies !(#[trigger] s[i] == 64) by { }
+    ui_ok_run(0, s, k);
+}
+/// FACT: a host that does not start with '[' extends to the first ':' (or the end) and is a valid host
+pub proof fn comp_host_plain(s: Seq<int>, hs_: int, e: int)
+    requires %(A)s_run(0, s), host_start(s, hs_), 0 <= hs_ <= e <= s.len(),
+        forall|i: int| hs_ <= i < e ==> #[trigger] s[i] != 58 && s[i] != 64 && s[i] != 91, e == s.len() || s[e] == 58,
+    ensures Host_run(0, s.subrange(hs_, e)),
+{
+    host_start_state(s, hs_);
+    let q = %(A)s_at(0, s, hs_);
+    %(A)s_split(0, s, hs_);
+    if q < 0 { %(A)s_dead(s.skip(hs_)); }
+    hn_start(q);
+    let r = s.skip(hs_);
+    hn_mid(q, 0, r);
+    assert forall|i: int| 0 <= i < e - hs_ implies !(#[trigger] r[i] == 58 || r[i] == 64 || r[i] == 91) by { assert(r[i] == s[i + hs_]); }
+    if e < s.len() { assert(r[e - hs_] == s[e]); }
+    hn_ok_run(0, r, e - hs_);
+    assert(r.subrange(0, e - hs_) =~= s.subrange(hs_, e));
+}
+/// FACT: a host that starts with '[' extends to the first ']' (inclusive) and is a valid host
+pub proof fn comp_host_bracket(s: Seq<int>, hs_: int, rb: int)
+    requires %(A)s_run(0, s), host_start(s, hs_), 0 <= hs_ < rb < s.len(), s[hs_] == 91, s[rb] == 93,
+        forall|i: int| hs_ <= i < rb ==> #[trigger] s[i] != 93,
+    ensures Host_run(0, s.subrange(hs_, rb + 1)),
+{
+    host_start_state(s, hs_);
+    let q = %(A)s_at(0, s, hs_);
+    %(A)s_split(0, s, hs_);
+    if q < 0 { %(A)s_dead(s.skip(hs_)); }
+    let r = s.skip(hs_);
+    assert(r[0] == 91);
+    let a1 = %(A)s_step(q, 91);
+    if a1 < 0 { %(A)s_dead(r.drop_first()); }
+    hb_start(q);
+    let b1 = Host_step(0, 91);
+    let r1 = r.drop_first();
+    assert(r1 =~= s.skip(hs_ + 1));
+    let n = rb - hs_ - 1;
+    assert forall|i: int| 0 <= i < n implies !(#[trigger] r1[i] == 93) by { assert(r1[i] == s[i + hs_ + 1]); }
+    hb_track(a1, b1, r1, n);
+    %(A)s_split(a1, r1, n);
+    let a = %(A)s_at(a1, r1, n);
+    let b = Host_at(b1, r1, n);
+    if a < 0 { %(A)s_dead(r1.skip(n)); }
+    let u = r1.skip(n);
+    assert(u[0] == s[rb]);
+    if %(A)s_step(a, 93) < 0 { %(A)s_dead(u.drop_first()); }
+    hb_close(a, b);
+    // assemble: host text h = '[' . r1[0..n] . ']'
+    let h = s.subrange(hs_, rb + 1);
+    assert(h[0] == 91);
+    let h1 = h.drop_first();
+    assert forall|i: int| 0 <= i < n implies h1[i] == r1[i] by { }
+    Host_at_prefix(b1, h1, r1, n);
+    Host_at_next(b1, h1, n);
+    assert(h1[n] == 93);
+    assert(h1.len() == n + 1);
+    Host_at_run(b1, h1);
+}
+/// FACT: what follows the ':' after the host of a valid authority is a valid port
+pub proof fn comp_port(s: Seq<int>, hs_: int, he: int, bracket: bool)
+    requires %(A)s_run(0, s), host_start(s, hs_), 0 <= hs_ <= he < s.len(), s[he] == 58,
+        forall|i: int| he < i < s.len() ==> #[trigger] s[i] != 64,
+        !bracket ==> forall|i: int| hs_ <= i < he ==> #[trigger] s[i] != 58 && s[i] != 64 && s[i] != 91,
+        bracket ==> hs_ < he - 1 && s[hs_] == 91 && s[he - 1] == 93 && forall|i: int| hs_ <= i < he - 1 ==> #[trigger] s[i] != 93,
+    ensures Port_run(0, s.subrange(he + 1, s.len() as int)),
+{
+    host_start_state(s, hs_);
+    let q = %(A)s_at(0, s, hs_);
+    %(A)s_split(0, s, hs_);
+    if q < 0 { %(A)s_dead(s.skip(hs_)); }
+    let r = s.skip(hs_);
+    %(A)s_split(0, s, he);
+    %(A)s_at_add(0, s, hs_, he - hs_);
+    let ae = %(A)s_at(0, s, he);
+    if ae < 0 { %(A)s_dead(s.skip(he)); }
+    let t = s.skip(he);
+    assert(t[0] == 58);
+    let ap = %(A)s_step(ae, 58);
+    if ap < 0 { %(A)s_dead(t.drop_first()); }
+    if !bracket {
+        hn_start(q);
+        assert forall|i: int| 0 <= i < he - hs_ implies !(#[trigger] r[i] == 58 || r[i] == 64 || r[i] == 91) by { assert(r[i] == s[i + hs_]); }
+        hn_track(q, 0, r, he - hs_);
+        hn_rel_endst(ae, Host_at(0, r, he - hs_));
+        po_from_hn(ae);
+    } else {
+        assert(r[0] == 91);
+        let a1 = %(A)s_step(q, 91);
+        %(A)s_at_next(0, s, hs_);
+        if a1 < 0 { %(A)s_at_add(0, s, hs_ + 1, he - hs_ - 1); %(A)s_at_neg(s.skip(hs_ + 1), he - hs_ - 1); }
+        hb_start(q);
+        let r1 = s.skip(hs_ + 1);
+        let n = he - 1 - hs_ - 1;
+        assert forall|i: int| 0 <= i < n implies !(#[trigger] r1[i] == 93) by { assert(r1[i] == s[i + hs_ + 1]); }
+        hb_track(a1, Host_step(0, 91), r1, n);
+        %(A)s_at_add(0, s, hs_ + 1, n);
+        let arb = %(A)s_at(0, s, he - 1);
+        if arb < 0 { %(A)s_at_add(0, s, he - 1, 1); %(A)s_at_neg(s.skip(he - 1), 1); }
+        hb_rel_endst(arb, Host_at(Host_step(0, 91), r1, n));
+        %(A)s_at_next(0, s, he - 1);
+        po_from_hb(arb);
+    }
+    let rest = s.skip(he + 1);
+    assert(t.drop_first() =~= rest);
+    po_mid(ap, 0, rest);
+    assert forall|i: int| 0 <= i < rest.len() implies !(#[trigger] rest[i] == 64) by { assert(rest[i] == s[i + he + 1]); }
+    po_ok_run(0, rest, rest.len() as int);
+    assert(rest.subrange(0, rest.len() as int) =~= s.subrange(he + 1, s.len() as int));
+}
+} // verus!
+fn main() {}
+""" % {"A": a_name, "pre_disp": pre_disp}
+    infos = [i_ui, i_hn, i_hb, i_po]
+    return src, {"pairs": sum(i["pairs"] for i in infos), "lemmas": sum(i["lemmas"] for i in infos) + len(pre) + 14}
+
+
+CERTS["uri_authority"] = lambda: authority_cert(dfa.reference("rfc3986.abnf", "authority"), dfa.reference("rfc3986.abnf", "userinfo"), dfa.reference("rfc3986.abnf", "host"), dfa.reference("rfc3986.abnf", "port"))
